@@ -403,7 +403,8 @@ namespace
             memset(zone.get(), (int)(mod(p.c(3), 4) == 0 ? 0x00 : mod(p.c(3), 4) == 1 ? 0xFF : 0xA5), zsize);
             pool_head ph;
             igris::pool ip;
-            std::unique_ptr<igris::static_object_pool<Obj, 6>> sop;
+            std::unique_ptr<igris::static_object_pool<Obj, 6>> sop, by_sop;
+            Obj *by_obj[2] = {nullptr, nullptr};
             Obj::registry.clear();
             Obj::live_count = 0;
             Shadow sh;
@@ -434,7 +435,15 @@ namespace
                 ip.init(zone.get(), zsize, elsz);
                 sh.lo = zone.get();
             }
-            else { sop.reset(new igris::static_object_pool<Obj, 6>()); sh.lo = (char *)sop->storage.data(); }
+            else
+            {
+                // a second pool object of the very same type lives next to the one under test and holds two objects of its own
+                by_sop.reset(new igris::static_object_pool<Obj, 6>());
+                by_obj[0] = by_sop->create(9001);
+                by_obj[1] = by_sop->create(9002);
+                sop.reset(new igris::static_object_pool<Obj, 6>());
+                sh.lo = (char *)sop->storage.data();
+            }
             sh.hi = sh.lo + zsize;
             bool exhausted = false, refilled = false;
             int tagc = 0;
@@ -503,7 +512,19 @@ namespace
                         if ((pool_in_freelist(&ph, sh.lo + i * elsz) != 0) == (sh.live.count(sh.lo + i * elsz) != 0))
                             violate("C10/pool-freelist", "%s: cell %zu is %s the free list but %s", when, i, sh.live.count(sh.lo + i * elsz) ? "in" : "not in",
                                     sh.live.count(sh.lo + i * elsz) ? "live" : "not live");
-                if (kind == 2 && (size_t)Obj::live_count != sh.live.size()) violate("C10/object-lifetime", "%d objects alive, %zu created and not destroyed", Obj::live_count, sh.live.size());
+                if (kind == 2 && (size_t)Obj::live_count != sh.live.size() + 2) violate("C10/object-lifetime", "%d objects alive, %zu created and not destroyed", Obj::live_count - 2, sh.live.size());
+                if (kind == 2)
+                {
+                    char *bl = (char *)by_sop->storage.data(), *bh = bl + sizeof(by_sop->storage);
+                    for (int q = 0; q < 2; q++)
+                    {
+                        Obj *ob = by_obj[q];
+                        if (!ob || (char *)ob < bl || (char *)ob >= bh || ob->tag != 9001 + q || ob->b != ~ob->a || ob->a != 0x1111111111111111ull * ((9001 + q) & 7))
+                            violate("C10/bystander", "%s: an object held by a second static_object_pool of the same type next to the one under test was damaged or lies outside that pool", when);
+                    }
+                    if (bl < sh.hi && sh.lo < bh) violate("C10/bystander", "%s: two static_object_pool objects of the same type share their cell storage", when);
+                    if (by_sop->avail() != 4) violate("C10/bystander", "%s: a second static_object_pool holding 2 of 6 objects reports %zu free cells", when, (size_t)by_sop->avail());
+                }
                 for (size_t i = 0; i < zoff; i++)
                     if ((unsigned char)zone_block[i] != 0x5C) violate(std::string("C10/pool-outside-arena@") + name(), "%s: the pool wrote to byte %zu in front of its zone", when, zoff - i);
                 sh.verify_all(name(), when);
@@ -750,15 +771,25 @@ namespace
         Nested *child = nullptr;
         int tag;
         unsigned char raw[12];
+        static void *release_to; // set while an owner is destroyed that gives its successor back to the same pool
         Nested(void *pool, int depth, int *tagc);
-        ~Nested()
-        {
-            for (size_t i = 0; i < sizeof raw; i++)
-                if (raw[i] != pat((uint64_t)tag, i)) { kit::defer_violation("C10/object-clobbered-before-destructor", "%s", "a chain node had been overwritten when its destructor ran"); break; }
-            g_life.died(this);
-        }
+        ~Nested();
     };
+    void *Nested::release_to = nullptr;
     typedef igris::static_object_pool<Nested, 6> NestedPool;
+    Nested::~Nested()
+    {
+        for (size_t i = 0; i < sizeof raw; i++)
+            if (raw[i] != pat((uint64_t)tag, i)) { kit::defer_violation("C10/object-clobbered-before-destructor", "%s", "a chain node had been overwritten when its destructor ran"); break; }
+        g_life.died(this);
+        // destroy() is re-entered while the outer object is being destroyed
+        if (release_to && child)
+        {
+            Nested *c = child;
+            child = nullptr;
+            ((NestedPool *)release_to)->destroy(c);
+        }
+    }
     Nested::Nested(void *pool, int depth, int *tagc) : tag(++*tagc)
     {
         g_life.born(this, tag);
@@ -820,9 +851,24 @@ namespace
                 auto it = live.begin();
                 std::advance(it, (long)mod(arg(o, 2), (int64_t)live.size()));
                 Nested *n = (Nested *)it->first;
-                // children stay alive (they are independent objects of the same client); forget the link
-                live.erase(it);
-                pool->destroy(n);
+                for (auto &kv : live)
+                    if (((Nested *)kv.first)->child == n) ((Nested *)kv.first)->child = nullptr; // its owner forgets it
+                if (mod(arg(o, 1), 2) == 1)
+                {
+                    // the owner takes its chain with it: every destructor gives the successor back to the same pool
+                    size_t chain = 0;
+                    for (Nested *q = n; q; q = q->child, chain++) live.erase((char *)q);
+                    Nested::release_to = pool.get();
+                    pool->destroy(n);
+                    Nested::release_to = nullptr;
+                    if (chain > 1) probe("destructor_releases_to_same_pool");
+                }
+                else
+                {
+                    // children stay alive (they are independent objects of the same client); forget the link
+                    live.erase(it);
+                    pool->destroy(n);
+                }
                 tr.ev("destroy -> %zu live", live.size());
             }
             check("after op");
